@@ -759,3 +759,33 @@ mod tests {
     // }
     // }
 }
+
+/// Verification hooks (compiled only with `--cfg libp2p_verif`).
+#[cfg(libp2p_verif)]
+pub mod verif_hooks {
+    use super::*;
+
+    /// The wire TTL `record_to_proto` produces for a record with the given expiry.
+    pub fn record_wire_ttl(expires: Option<Instant>) -> u32 {
+        record_to_proto(Record {
+            key: record::Key::from(Vec::new()),
+            value: Vec::new(),
+            publisher: None,
+            expires,
+        })
+        .ttl
+    }
+
+    /// The expiry `record_from_proto` assigns to a record with the given wire TTL.
+    pub fn record_expiry_from_wire_ttl(ttl: u32) -> Option<Instant> {
+        record_from_proto(proto::Record {
+            key: Vec::new(),
+            value: Vec::new(),
+            publisher: Vec::new(),
+            ttl,
+            time_received: String::new(),
+        })
+        .expect("no publisher to decode")
+        .expires
+    }
+}
